@@ -57,6 +57,10 @@ type CallObs struct {
 	Assets   *Assets
 	Op       *Op
 	Millis   int64
+	// captured when the call returned (the session object is mutated by later calls)
+	StatusAfter    string
+	RunsAfter      int
+	EventsInSprint int
 }
 
 type world struct {
@@ -417,6 +421,7 @@ func finish(obs *CallObs, s flows.Session, sp flows.Sprint, err error, p any, hu
 	default:
 		obs.Kind = 0
 		obs.Session, obs.Sprint = s, sp
+		obs.StatusAfter, obs.RunsAfter, obs.EventsInSprint = string(s.Status()), len(s.Runs()), len(sp.Events())
 		e.n(0)
 		e.session(s)
 		e.sprint(s, sp)
